@@ -51,6 +51,25 @@ def handle (st : St) (n : Nat) (line : String) : Result := Id.run do
   | "TF" :: _ => return handleTF st n toks
   | "TL" :: _ => return handleTL st n toks
   | "CR" :: _ => return handleCR st n toks
+  | "OM" :: rest =>
+    let g := field rest
+    let want := (g "want").getD "?"; let wantroot := (g "wantroot").getD "?"
+    let served := (g "served").getD "!"; let root := (g "root").getD "!"; let valid := (g "valid").getD "0"
+    let st := st.bump s!"omni.{(g "store").getD "?"}.{(g "log").getD "?"}"
+    if want == served && wantroot == root && valid == "1" then return { st := { st with nOK := st.nOK + 1 }, out := [s!"OK {n}"] }
+    else
+      let f := fail st n "C14" s!"{(g "store").getD "?"} step {(g "step").getD "?"}: log {(g "log").getD "?"} published size {want} but the omniwitness serves size {served} (cosigned-valid={valid}) after the allowed poll intervals"
+      if (g "step").getD "" == "0" && served == "0" then
+        let f2 := fail f.st n "C17" s!"configured log {(g "log").getD "?"} has a feeder type but is never fed after start-up: the feeder list and the witness map do not describe the same logs"
+        return { st := f2.st, out := f.out ++ f2.out }
+      return f
+  | "OMF" :: rest =>
+    let g := field rest
+    let w := (g "witnessed").getD "?"; let s := (g "served").getD "!"
+    let st := st.bump "omni.fork"
+    if w == s && (g "valid").getD "0" == "1" then return { st := { st with nOK := st.nOK + 1 }, out := [s!"OK {n}"] }
+    else
+      return fail st n "C14" s!"{(g "store").getD "?"} {(g "phase").getD "?"}: the log served a history that is not an extension, and the served checkpoint left the witnessed history ({w.take 40} -> {s.take 40})"
   | ["TREE", _, leaves] =>
     match parseList leaves with
     | some l => return { st := { st with treeLeaves := l }, out := [] }
